@@ -325,6 +325,26 @@ def r5_reductions(repo: Repo, rep):
         txt = f"error_fn={dump(e)}, reduce_fn={dump(r)}"
         good = e is not None and r is not None and dump(e).replace("nn.Identity", "torch.nn.Identity").replace("torch.torch.", "torch.") == err and dump(r) == red
         rep.check(R, good, init.site(sup[0]), init.fq, f"error_fn={err}, reduce_fn={red}", txt, txt)
+    # adaptive point weights: reduce = mean(weight layer(error)), the layer sized by the sampler and registered on the condition
+    aw = repo.cls(f"{COND}.AdaptiveWeightsCondition")
+    init = aw.methods.get("__init__")
+    if init is None:
+        raise AnalysisError("AdaptiveWeightsCondition.__init__ vanished")
+    rep.saw(init)
+    sup = [c for c in ast.walk(init.node) if isinstance(c, ast.Call) and dump(c.func) == "super().__init__"]
+    red = kwarg(sup[0], "reduce_fn") if len(sup) == 1 else None
+    body = None
+    if isinstance(red, ast.Lambda) and len(red.args.args) == 1:
+        body, arg = red.body, red.args.args[0].arg
+    elif isinstance(red, ast.Name):
+        for n in ast.walk(init.node):
+            if isinstance(n, ast.FunctionDef) and n.name == red.id and len(n.args.args) == 1:
+                ps_ = [q for q in paths(n) if q.ret is not RAISE and q.ret is not None]
+                if len(ps_) == 1:
+                    body, arg = ps_[0].ret, n.args.args[0].arg
+    layers = [dump(t) for n in ast.walk(init.node) if isinstance(n, ast.Assign) and isinstance(n.value, ast.Call) and ends(attr_chain(n.value.func), "AdaptiveWeightLayer") for t in n.targets]
+    good = body is not None and bool(layers) and dump(body).replace(" ", "") in tuple(f"torch.mean({l}({arg}))" for l in layers)
+    rep.check(R, good, init.site(), init.fq, "reduce_fn = mean(adaptive_layer(point-wise error))", dump(body)[:100] if body is not None else dump(red)[:60], dump(body)[:100] if body is not None else "reduce_fn")
     # DeepRitz inherits MeanCondition's pair
     dr = repo.cls(f"{COND}.DeepRitzCondition")
     rep.check(R, [b.name for b in dr.bases] == ["MeanCondition"] and not any(k in ast.unparse(dr.methods["__init__"].node) for k in ("error_fn", "reduce_fn")) if "__init__" in dr.methods else True,
